@@ -1,4 +1,5 @@
 import FitProps.C12Lemmas
+import FitProps.C12CsvLemmas
 import FitModel.TimeAngle
 import FitModel.ScaleOffsetProfile
 import FitModel.Generated.ProfileArith
@@ -349,5 +350,144 @@ theorem C12_typed_slice_all (t : Fit.PA.Typed) (ht : t ∈ Fit.Gen.PA.typed) :
   rw [hi]
   exact ⟨fun xs hxs => C12_typed_slice _ hb xs hxs (t.scale, t.offset) hp,
     fun xs hxs => C12_typed_array _ hb xs hxs (t.scale, t.offset) hp⟩
+
+/-! ### encoder validator: developer fields mapped to native fields -/
+
+/-- **C12_native_table.** Every field the standard factory knows (regenerated: `Generated/ProfileArith.lean` `fields`,
+what `factory.StandardFactory().CreateField` returns as far as the validator reads it) has the unit pair or a pair of
+the profile. -/
+theorem C12_native_table : ∀ e ∈ Fit.Gen.PA.fields,
+    isUnit e.2.2.2.1 e.2.2.2.2 = true ∨ (e.2.2.2.1, e.2.2.2.2) ∈ profilePairs := by
+  decide +kernel
+
+/-- **C12_validator_dev.** A developer field whose field description designates a native field (valid native message
+and field number) and whose value is that native field's scaled float64 form comes back from the validator as the raw
+integer: for EVERY state `st` of the validator (whatever messages and look-ups came before) in which the developer data
+index was announced and `d` is the description found for the field, every factory `fac` that answers `(bt, scale,
+offset)` for THAT description's native (message, field) with a pair of the profile, every raw value of the integer type
+the base type restores to (at most 32 bits), aligned with the description's own base type. -/
+theorem C12_validator_dev (fac : Factory) (st : VState) (devIdx num : Nat) (d : DevDesc)
+    (hddi : st.ddis.contains devIdx = true)
+    (hfind : st.descs.find? (fun x => x.devIdx == devIdx && x.num == num) = some d)
+    (hn : d.nativeMesg ≠ Fit.Gen.mesgNumInvalid ∧ d.nativeField ≠ Fit.Gen.uint8Invalid) (bt : Nat) (pr : Nat × Nat)
+    (hfac : fac d.nativeMesg d.nativeField = some (bt, pr.1, pr.2)) (hpr : pr ∈ profilePairs)
+    (ty : IntTy) (hty : ty.bits ≤ 32) (p : Nat) (hp : p < 2 ^ ty.bits) (hbt : tgtOfBaseType bt = some (.int ty))
+    (hal : align (scalarV ty p) d.btId = true) :
+    validatorDevField fac st devIdx num (applyValue (scalarV ty p) pr.1 pr.2) = .ok (scalarV ty p) := by
+  have hv := C12_validator ty hty p hp bt hbt pr hpr
+  have hr : validatorRestoreDev fac d (applyValue (scalarV ty p) pr.1 pr.2) = scalarV ty p := by
+    unfold validatorRestoreDev
+    rw [if_pos hn, hfac]
+    simpa [validatorRestore] using hv
+  simp only [validatorDevField, hddi, Bool.not_true, Bool.false_eq_true, if_false, hfind, hr, hal]
+
+/-- the same with the standard factory: no hypothesis on the pair is left — whatever native field of the profile
+the description designates, if it is scaled its pair is a profile pair (`C12_native_table`) -/
+theorem C12_validator_dev_std (st : VState) (devIdx num : Nat) (d : DevDesc)
+    (hddi : st.ddis.contains devIdx = true)
+    (hfind : st.descs.find? (fun x => x.devIdx == devIdx && x.num == num) = some d)
+    (hn : d.nativeMesg ≠ Fit.Gen.mesgNumInvalid ∧ d.nativeField ≠ Fit.Gen.uint8Invalid) (bt s o : Nat)
+    (hfac : stdFactory d.nativeMesg d.nativeField = some (bt, s, o)) (hnu : isUnit s o = false)
+    (ty : IntTy) (hty : ty.bits ≤ 32) (p : Nat) (hp : p < 2 ^ ty.bits) (hbt : tgtOfBaseType bt = some (.int ty))
+    (hal : align (scalarV ty p) d.btId = true) :
+    validatorDevField stdFactory st devIdx num (applyValue (scalarV ty p) s o) = .ok (scalarV ty p) := by
+  have hpr : (s, o) ∈ profilePairs := by
+    unfold stdFactory at hfac
+    cases hf : Fit.Gen.PA.fields.find? (fun e => e.1 == d.nativeMesg && e.2.1 == d.nativeField) with
+    | none => simp [hf] at hfac
+    | some e =>
+      simp only [hf, Option.map_some, Option.some.injEq, Prod.mk.injEq] at hfac
+      obtain ⟨_, rfl, rfl⟩ := hfac
+      rcases C12_native_table e (List.mem_of_find?_eq_some hf) with h | h
+      · rw [h] at hnu; cases hnu
+      · exact h
+  exact C12_validator_dev stdFactory st devIdx num d hddi hfind hn bt (s, o) hfac hpr ty hty p hp hbt hal
+
+/-- non-vacuity (the example of the seeded change C12-3): after a developer_data_id, a description mapped to
+lap.avg_altitude (19/42, uint16, 5/500) and one mapped to session.avg_stroke_distance (18/42, uint16, 100), and a lap
+carrying the first, the session's developer field 2.50 m comes back as raw 250 -/
+example :
+    stdFactory 19 42 = some (0x84, 0x4014000000000000, 0x407f400000000000) ∧
+    stdFactory 18 42 = some (0x84, 0x4059000000000000, 0) ∧
+    validatorSeq stdFactory {} [.ddi 0, .desc ⟨0, 0, 0x84, 255, 127, 19, 42⟩, .desc ⟨0, 1, 0x84, 255, 127, 18, 42⟩,
+      .mesg [(0, 0, applyValue (.uint16 2513) 0x4014000000000000 0x407f400000000000)],
+      .mesg [(0, 1, applyValue (.uint16 250) 0x4059000000000000 0)]] =
+      [.ok [], .ok [], .ok [], .ok [.uint16 2513], .ok [.uint16 250]] := by decide +kernel
+
+/-- the developer data indexes / field descriptions a sequence of messages announces, in order -/
+def ddisOf (items : List VItem) : List Nat := items.filterMap fun | .ddi i => some i | _ => none
+def descsOf (items : List VItem) : List DevDesc := items.filterMap fun | .desc d => some d | _ => none
+
+theorem validatorSeq_append (fac : Factory) (pre : List VItem) (st : VState) (it : VItem) :
+    validatorSeq fac st (pre ++ [it]) =
+      validatorSeq fac st pre ++ [(validatorStep fac ⟨st.ddis ++ ddisOf pre, st.descs ++ descsOf pre⟩ it).2] := by
+  induction pre generalizing st with
+  | nil => simp [validatorSeq, ddisOf, descsOf]
+  | cons a pre ih =>
+    simp only [List.cons_append, validatorSeq]
+    rw [ih]
+    cases a <;> simp [validatorStep, ddisOf, descsOf, List.append_assoc]
+
+/-- **C12_validator_seq.** ONE validator over a sequence of messages: what it answers for a message with developer
+fields depends on the messages before it only through the developer data indexes and field descriptions they
+announced, in order — not on the data messages validated or the native fields looked up before. (With
+`C12_validator_dev`, which holds for every such state: each natively-mapped developer field of the sequence is restored
+with the scale / offset / base type of ITS OWN native field.) -/
+theorem C12_validator_seq (fac : Factory) (pre : List VItem) (devs : List (Nat × Nat × Value)) :
+    (validatorSeq fac {} (pre ++ [.mesg devs])).getLast? =
+      some (devs.mapM fun d => validatorDevField fac ⟨ddisOf pre, descsOf pre⟩ d.1 d.2.1 d.2.2) := by
+  rw [validatorSeq_append]
+  simp [validatorStep]
+
+/-! ### the CSV text of a scaled value -/
+
+/-- **C12_csv_pairs.** Every pair of the profile meets the decidable side condition of the CSV text lemma
+(`csvPairOK`: in range, and either no offset and a scale of at most 2^16, or integer scale ≤ 2^11 and integer offset). -/
+theorem C12_csv_pairs : ∀ pr ∈ profilePairs, csvPairOK pr.1 pr.2 = true := by decide +kernel
+
+/-- the distinct pairs of the profile without offset -/
+def smallPairs : List (Nat × Nat) :=
+  (profilePairs.foldl (fun acc p => if acc.contains p then acc else acc ++ [p]) []).filter fun p => zeroOffset p.2
+
+theorem smallPairs_cover : ∀ pr ∈ profilePairs, zeroOffset pr.2 = true → pr ∈ smallPairs := by decide +kernel
+
+/-- raw values of magnitude below 7 at the pairs without offset: evaluated -/
+theorem csv_small : ∀ pr ∈ smallPairs, ∀ i ∈ List.range 13,
+    csvHasDot (apply (ofInt ((i : Int) - 6)) pr.1 pr.2) = true := by decide +kernel
+
+/-- **C12_csv_text.** The text the CSV writer produces for the scaled value `raw/scale − offset` of ANY raw value of an
+integer type of at most 32 bits at ANY pair of the profile contains a '.' (`csvHasDot`, the model of fitcsv `format` +
+strconv tied by the operation `socd`): a whole value is written "x.0"; any other value of magnitude at least 10^-4 in
+`%f` or many-digit `%e` form; the values below 10^-4 (raw 1…6 at scales above 10^4) are evaluated and are not one-digit
+decimals. So `parseValue` reads every such cell through its scaled path — never through `ParseUint`/`ParseInt`,
+which would take "5" for raw 5 instead of raw 500. -/
+theorem C12_csv_text (ty : IntTy) (hty : ty.bits ≤ 32) (p : Nat) (pr : Nat × Nat) (hpr : pr ∈ profilePairs) :
+    csvHasDot (apply (toF64 (.int ty) p) pr.1 pr.2) = true := by
+  have hrb : (ty.toInt p).natAbs ≤ 2 ^ 32 :=
+    le_trans (toInt_natAbs_le ty p) (Nat.pow_le_pow_right (by norm_num) hty)
+  simp only [toF64]
+  by_cases hbig : zeroOffset pr.2 = true → 7 ≤ (ty.toInt p).natAbs
+  · exact csv_text_main _ hrb pr.1 pr.2 (C12_csv_pairs pr hpr) hbig
+  · rw [Classical.not_imp] at hbig
+    obtain ⟨hz, hsm⟩ := hbig
+    have hi : ((ty.toInt p + 6).toNat : Int) - 6 = ty.toInt p := by omega
+    have := csv_small pr (smallPairs_cover pr hpr hz) (ty.toInt p + 6).toNat (by simp only [List.mem_range]; omega)
+    rwa [hi] at this
+
+/-- **C12_csv_cell.** FIT → CSV cell → FIT for a scaled column, text decision included: the cell written for
+`ApplyValue(raw)` is read back as the raw value (`csvCell` = "contains '.'" test, then `parseValue`'s scaled path;
+strconv's parsing of its own shortest text is assumed exact). -/
+theorem C12_csv_cell (ty : IntTy) (hty : ty.bits ≤ 32) (p : Nat) (hp : p < 2 ^ ty.bits) (bt : Nat)
+    (hbt : csvTgt bt = some (.int ty)) (pr : Nat × Nat) (hpr : pr ∈ profilePairs) :
+    csvCell (apply (toF64 (.int ty) p) pr.1 pr.2) bt pr.1 pr.2 = some (some (scalarV ty p)) := by
+  simp only [csvCell, C12_csv_text ty hty p pr hpr, if_true, C12_csv ty hty p hp bt hbt pr hpr]
+
+/-- non-vacuity, and what the theorem excludes: raw 500 at scale 100 is written "5.0" (whole), raw 1 at scale 65536 is
+1.52587890625e-05 (many digits); the float64 nearest to 1e-05 or 2e+19 would be written without a '.' — no scaled value
+of the profile is such a number -/
+example : csvHasDot (apply (toF64 (.int .u16) 500) 0x4059000000000000 0) = true ∧
+    csvHasDot (apply (toF64 (.int .u32) 1) 0x40f0000000000000 0) = true ∧
+    csvHasDot 0x3ee4f8b588e368f1 = false ∧ csvHasDot 0x43f158e460913d00 = false ∧
+    csvCell 0x3ee4f8b588e368f1 0x84 0x4059000000000000 0 = none := by decide +kernel
 
 end Fit.C12
